@@ -30,6 +30,11 @@ func (failingWriter) Write(p []byte) (int, error) { return 0, errNoSpace }
 
 var errNoSpace = errors.New("no space left on device")
 
+// interleaveParse: interpret parses otherProgram between Parse and Execute (set by suiteInterp for opts containing 'I')
+var interleaveParse bool
+
+const otherProgram = "# other\n\n\n\nvar q = 1\n\n\n\n\n\n\ndef other \"o\" {\n  a = 1\n\n\n  b = 2\n}\n\n\n\n\nprint q +\n\n"
+
 // failOut: the next interpret call uses a failing output writer (set by suiteInterp for opts containing 'F')
 var failOut bool
 
@@ -50,6 +55,10 @@ func interpret(src []byte, name string, disasm, trace, stats bool) (o interpObs)
 			return
 		}
 		o.Parts = showParts(p)
+		if interleaveParse {
+			// an unrelated parse between compiling and running: nothing of it may reach the first program
+			bcl.Parse([]byte(otherProgram), "other", bcl.OptOutput(discard{}), bcl.OptLogger(discard{}))
+		}
 		res, b, err = bcl.Execute(p, opts...)
 	})
 	if o.Class == "ok" && err != nil {
@@ -94,6 +103,12 @@ func execSeq(src []byte, name string, seq []string) []M {
 		var b bcl.Binding
 		var xerr error
 		class, pm := guard(30*time.Second, func() {
+			if has('W') {
+				// this execution is given writers of its own; later executions must be unaffected by that
+				var o2, l2 bytes.Buffer
+				res, b, xerr = bcl.Execute(p, bcl.OptOutput(&o2), bcl.OptLogger(&l2))
+				return
+			}
 			res, b, xerr = bcl.Execute(p, bcl.OptOutput(&out), bcl.OptLogger(&log), bcl.OptTrace(has('t')), bcl.OptStats(has('s')))
 		})
 		st := M{"opts": opts, "class": class, "out": hx(out.Bytes()[mark:]), "log": hx(log.Bytes()[lmark:]), "blocks": showBlocks(res), "binding": showBinding(b)}
@@ -140,9 +155,9 @@ func suiteInterp(c M) M {
 	src := unhex(str(c["src_hex"])) // a fresh buffer per case: interpret overwrites it afterwards
 	opts := str(c["opts"])
 	has := func(ch byte) bool { return bytes.IndexByte([]byte(opts), ch) >= 0 }
-	failOut = has('F')
+	failOut, interleaveParse = has('F'), has('I')
 	o := interpret(src, str(c["name"]), has('d'), has('t'), has('s'))
-	failOut = false
+	failOut, interleaveParse = false, false
 	r := M{"obs": o}
 	if c["sticky"] == true {
 		r["sticky"] = stickyOptions(src, str(c["name"]))
